@@ -7,6 +7,17 @@
 //!            a second thread raises the flag after <delay_us>; every command invocation pauses
 //!            <sleep_us> so that endless programs produce a short log; from the 150th invocation on a
 //!            command waits inside its run until the flag is up (bounds the log under any scheduling)
+//!         Q ...same fields as P...   the run gets env = None (the runner's default Env): a "!" result raises
+//!            the default Env's own flag through context.env.halt; 7th output field is "-"
+//!         N <env: S|0> <thread: N|Y> <text> <watch>
+//!            nested flows with the real SDK (dsverif::sdk_context(false)) plus harness commands, all
+//!            logged as name|args:
+//!              hlog t ..      Continue(Some t)            hraise t       raises the flag, Continue(Some "true")
+//!              hraisefail t   raises the flag, Error(t)   hwait t        waits until the flag is up, Continue(Some "true")
+//!              hwaitfail t    waits until the flag is up, Error(t)
+//!            env = S: Env::new(None, None, Some(flag)); 0: env = None.  thread = Y: a second thread raises
+//!            the flag as soon as a hwait/hwaitfail command has started waiting (Some(flag) only)
+//!            output: OK|ERR <detail> <line> <src> <log> <watched vars name=<opt>;...> <flag>
 //! output: as c03, plus a 7th field: the flag's value after the run (T|F)
 #[path = "../scripted.rs"]
 mod scripted;
@@ -42,8 +53,134 @@ fn run_case(f: &[&str], halt: Arc<AtomicBool>, sleep_us: u64) -> String {
     format!("{}\t{}", show_result(r, &shared), if halt.load(Ordering::SeqCst) { "T" } else { "F" })
 }
 
+#[derive(Clone)]
+struct Nested {
+    name: &'static str,
+    log: Rc<RefCell<Vec<String>>>,
+    waiting: Arc<AtomicBool>,
+}
+impl duckscript::types::command::Command for Nested {
+    fn name(&self) -> String {
+        self.name.to_string()
+    }
+    fn clone_and_box(&self) -> Box<dyn duckscript::types::command::Command> {
+        Box::new(self.clone())
+    }
+    fn run(&self, context: duckscript::types::command::CommandInvocationContext) -> duckscript::types::command::CommandResult {
+        use duckscript::types::command::CommandResult;
+        self.log.borrow_mut().push(format!("{}|{}", enc_str(self.name), enc_list(&context.arguments)));
+        if self.log.borrow().len() > 5000 {
+            panic!("watchdog");
+        }
+        let tag = context.arguments.get(0).cloned().unwrap_or_default();
+        let wait = |ctx: &duckscript::types::command::CommandInvocationContext| {
+            self.waiting.store(true, Ordering::SeqCst);
+            let t0 = std::time::Instant::now();
+            while !ctx.env.halt.load(Ordering::SeqCst) {
+                std::thread::sleep(std::time::Duration::from_micros(100));
+                if t0.elapsed().as_secs() > 30 {
+                    panic!("watchdog");
+                }
+            }
+        };
+        match self.name {
+            "hlog" => CommandResult::Continue(Some(tag)),
+            "hraise" => {
+                context.env.halt.store(true, Ordering::SeqCst);
+                CommandResult::Continue(Some("true".to_string()))
+            }
+            "hraisefail" => {
+                context.env.halt.store(true, Ordering::SeqCst);
+                CommandResult::Error(tag)
+            }
+            "hwait" => {
+                wait(&context);
+                CommandResult::Continue(Some("true".to_string()))
+            }
+            _ => {
+                wait(&context);
+                CommandResult::Error(tag)
+            }
+        }
+    }
+}
+
+fn nested_case(f: &[&str]) -> String {
+    let log = Rc::new(RefCell::new(Vec::new()));
+    let waiting = Arc::new(AtomicBool::new(false));
+    let mut context = sdk_context(false);
+    for name in ["hlog", "hraise", "hraisefail", "hwait", "hwaitfail"] {
+        context
+            .commands
+            .set(Box::new(Nested { name, log: log.clone(), waiting: waiting.clone() }))
+            .expect("harness command");
+    }
+    let halt = Arc::new(AtomicBool::new(false));
+    let done = Arc::new(AtomicBool::new(false));
+    let thread = if f[2] == "Y" {
+        let (h2, w2, d2) = (halt.clone(), waiting.clone(), done.clone());
+        Some(std::thread::spawn(move || {
+            while !w2.load(Ordering::SeqCst) && !d2.load(Ordering::SeqCst) {
+                std::thread::sleep(std::time::Duration::from_micros(50));
+            }
+            std::thread::sleep(std::time::Duration::from_micros(300));
+            h2.store(true, Ordering::SeqCst);
+        }))
+    } else {
+        None
+    };
+    let env = if f[1] == "S" { Some(Env::new(None, None, Some(halt.clone()))) } else { None };
+    let text = dec_str(f[3]);
+    let r = runner::run_script(&text, context, env);
+    done.store(true, Ordering::SeqCst);
+    if let Some(t) = thread {
+        let _ = t.join();
+    }
+    let logs = {
+        let l = log.borrow();
+        if l.is_empty() { "-".to_string() } else { l.join(";") }
+    };
+    let flag = if f[1] == "S" { if halt.load(Ordering::SeqCst) { "T" } else { "F" } } else { "-" };
+    match r {
+        Ok(ctx) => {
+            let vars: Vec<String> = dec_list(f[4])
+                .iter()
+                .map(|v| format!("{}={}", enc_str(v), enc_opt(&ctx.variables.get(v).cloned())))
+                .collect();
+            format!("OK\t-\t-\t-\t{}\t{}\t{}", logs, if vars.is_empty() { "-".to_string() } else { vars.join(";") }, flag)
+        }
+        Err(duckscript::types::error::ScriptError::Runtime(msg, meta)) => {
+            let line = meta.as_ref().and_then(|m| m.line).map(|l| l.to_string()).unwrap_or("N".to_string());
+            format!("ERR\tMSG {}\t{}\t-\t{}\t-\t{}", enc_str(&msg), line, logs, flag)
+        }
+        Err(e) => format!("ERR\tKIND {}\t-\t-\t{}\t-\t{}", script_error_kind(&e), logs, flag),
+    }
+}
+
+fn run_case_default_env(f: &[&str]) -> String {
+    let shared = Rc::new(RefCell::new(Shared::default()));
+    let cmds = parse_cmds(f[5], &shared);
+    let context = make_context(&cmds, parse_vars(f[6]));
+    let text = dec_str(f[7]);
+    let r = match opt_field(f[1]) {
+        None => runner::run_script(&text, context, None),
+        Some(path) => {
+            if let Some(dir) = std::path::Path::new(&path).parent() {
+                let _ = std::fs::create_dir_all(dir);
+            }
+            std::fs::write(&path, &text).expect("write script file");
+            let r = runner::run_script_file(&path, context, None);
+            let _ = std::fs::remove_file(&path);
+            r
+        }
+    };
+    format!("{}\t-", show_result(r, &shared))
+}
+
 fn main() {
     serve(|f| match f[0] {
+        "Q" if f.len() >= 8 => run_case_default_env(f),
+        "N" if f.len() >= 5 => nested_case(f),
         "P" if f.len() >= 8 => {
             let halt = Arc::new(AtomicBool::new(f[2] == "0"));
             run_case(f, halt, 0)
